@@ -141,13 +141,16 @@ func (t MultipartMixed) Do(w http.ResponseWriter, r *http.Request, exec graphql.
 	responses, ctx := exec.DispatchOperation(ctx, rc)
 	initialResponse := true
 	for {
-		response := responses(ctx)
+		response, failed := nextResponse(ctx, rc, responses)
 		if response == nil {
 			break
 		}
 
 		a.Add(response, initialResponse)
 		initialResponse = false
+		if failed {
+			break
+		}
 	}
 }
 
